@@ -423,6 +423,8 @@ fn run_check_inner<P: Prop>(p: &P, tier: Tier) -> i32 {
 	let found: Mutex<Vec<Found<P::Scn>>> = Mutex::new(vec![]);
 	let acc: Mutex<Acc> = Mutex::new(Acc::default());
 	let nondeterministic: Mutex<Vec<u64>> = Mutex::new(vec![]);
+	let double_runs = AtomicU64::new(0);
+	let double_runs = &double_runs;
 
 	if p.isolated() {
 		run_isolated(p, tier, seed, runs, wall_cap, workers, &acc, &found);
@@ -473,6 +475,7 @@ fn run_check_inner<P: Prop>(p: &P, tier: Tier) -> i32 {
 						slot.0.store(0, Ordering::Relaxed);
 						// in-process determinism sample: every 50th run is executed twice
 						if run % 50 == 0 {
+							double_runs.fetch_add(1, Ordering::Relaxed);
 							let o2 = exec_caught(p, &scn);
 							if o2.full_digest() != o.full_digest() {
 								nondeterministic.lock().unwrap().push(run);
@@ -499,6 +502,10 @@ fn run_check_inner<P: Prop>(p: &P, tier: Tier) -> i32 {
 	let mut acc = acc.into_inner().unwrap();
 	let mut found = found.into_inner().unwrap();
 	found.sort_by_key(|f| f.run);
+	if ISOLATED_NONDET.load(Ordering::Relaxed) {
+		return 2;
+	}
+	double_runs.fetch_add(ISOLATED_DOUBLE_RUNS.load(Ordering::Relaxed), Ordering::Relaxed);
 	let nondet = nondeterministic.into_inner().unwrap();
 	if !nondet.is_empty() {
 		eprintln!("HARNESS-ERROR: non-deterministic executions for runs {nondet:?} (same scenario, different event digest)");
@@ -652,7 +659,8 @@ fn run_check_inner<P: Prop>(p: &P, tier: Tier) -> i32 {
 			"probes_at_zero": zero_probes,
 			"components": p.components(),
 			"determinism": {
-				"in_process_double_runs": acc.scenarios / 50 + 1,
+				"in_process_double_runs": double_runs.load(Ordering::Relaxed),
+				"note": if p.isolated() { "scenarios run in worker processes; every 200th scenario of each worker is executed twice and the event digests compared" } else { "every 50th scenario executed twice in-process; the first runs re-executed in a fresh process with another worker count" },
 				"cross_process_runs_compared": cross_checked,
 				"mismatches": 0
 			},
@@ -891,6 +899,8 @@ pub fn run_replay<P: Prop>(p: &P, path: &str) -> i32 {
 }
 
 pub const ISOLATED_ALLOC_CAP: usize = 256 << 20;
+static ISOLATED_DOUBLE_RUNS: AtomicU64 = AtomicU64::new(0);
+static ISOLATED_NONDET: AtomicBool = AtomicBool::new(false);
 
 /// Worker-process mode (C04): `avrosim worker <id> <tier> <start> <stride> <runs> <inflight-path>`
 pub fn run_worker<P: Prop>(p: &P, tier: Tier, start: u64, stride: u64, runs: u64, inflight: &str) -> i32 {
@@ -918,6 +928,8 @@ pub fn run_worker<P: Prop>(p: &P, tier: Tier, start: u64, stride: u64, runs: u64
 	let t0 = Instant::now();
 	let mut acc = Acc::default();
 	let mut found: Vec<Value> = vec![];
+	let mut double_runs = 0u64;
+	let mut nondet: Vec<u64> = vec![];
 	let mut run = start;
 	while run < runs {
 		if t0.elapsed().as_secs() >= wall_cap {
@@ -928,6 +940,13 @@ pub fn run_worker<P: Prop>(p: &P, tier: Tier, start: u64, stride: u64, runs: u64
 		let _ = std::fs::write(inflight, text);
 		PROGRESS.fetch_add(1, Ordering::Relaxed);
 		let o = exec_caught(p, &scn);
+		if (run / stride) % 200 == 0 {
+			double_runs += 1;
+			let o2 = exec_caught(p, &scn);
+			if o2.full_digest() != o.full_digest() {
+				nondet.push(run);
+			}
+		}
 		absorb(&mut acc, run, &scn, &o);
 		if let Some(v) = &o.violation {
 			if found.len() < 16 {
@@ -947,6 +966,8 @@ pub fn run_worker<P: Prop>(p: &P, tier: Tier, start: u64, stride: u64, runs: u64
 		"counters": counters,
 		"samples": acc.samples,
 		"found": found,
+		"double_runs": double_runs,
+		"nondeterministic": nondet,
 	});
 	println!("WORKER-SUMMARY {}", serde_json::to_string(&summary).unwrap());
 	0
@@ -1009,6 +1030,11 @@ fn run_isolated<P: Prop>(
 					got_summary = true;
 					let mut a = acc.lock().unwrap();
 					a.scenarios += v["scenarios"].as_u64().unwrap_or(0);
+					ISOLATED_DOUBLE_RUNS.fetch_add(v["double_runs"].as_u64().unwrap_or(0), Ordering::Relaxed);
+					if v["nondeterministic"].as_array().map_or(false, |x| !x.is_empty()) {
+						eprintln!("HARNESS-ERROR: worker {w} saw non-deterministic executions for runs {}", v["nondeterministic"]);
+						ISOLATED_NONDET.store(true, Ordering::Relaxed);
+					}
 					a.evaluations += v["evaluations"].as_u64().unwrap_or(0);
 					a.steps += v["steps"].as_u64().unwrap_or(0);
 					a.nontrivial_scenarios += v["nontrivial_scenarios"].as_u64().unwrap_or(0);
